@@ -256,54 +256,34 @@ impl AstLowering {
                 }
             }
             ast::Type::Generic(base, params) => {
+                // Lower every type argument exactly once and hand the results to the arms below.
+                // (Lowering them again per arm made the cost double with each level of nesting.)
                 let lowered_params: Vec<_> = params.iter().map(|p| self.lower_type(&p.node)).collect();
                 match classify_generic_base(base.as_str()) {
-                    GenericBaseKind::Collection(CollectionTypeId::List) => IrType::List(Box::new(
-                        params
-                            .first()
-                            .map(|p| self.lower_type(&p.node))
-                            .unwrap_or(IrType::Unknown),
-                    )),
-                    GenericBaseKind::Collection(CollectionTypeId::Dict) => IrType::Dict(
-                        Box::new(
-                            params
-                                .first()
-                                .map(|p| self.lower_type(&p.node))
-                                .unwrap_or(IrType::Unknown),
-                        ),
-                        Box::new(
-                            params
-                                .get(1)
-                                .map(|p| self.lower_type(&p.node))
-                                .unwrap_or(IrType::Unknown),
-                        ),
-                    ),
-                    GenericBaseKind::Collection(CollectionTypeId::Set) => IrType::Set(Box::new(
-                        params
-                            .first()
-                            .map(|p| self.lower_type(&p.node))
-                            .unwrap_or(IrType::Unknown),
-                    )),
-                    GenericBaseKind::Collection(CollectionTypeId::Option) => IrType::Option(Box::new(
-                        params
-                            .first()
-                            .map(|p| self.lower_type(&p.node))
-                            .unwrap_or(IrType::Unknown),
-                    )),
-                    GenericBaseKind::Collection(CollectionTypeId::Result) => IrType::Result(
-                        Box::new(
-                            params
-                                .first()
-                                .map(|p| self.lower_type(&p.node))
-                                .unwrap_or(IrType::Unknown),
-                        ),
-                        Box::new(
-                            params
-                                .get(1)
-                                .map(|p| self.lower_type(&p.node))
-                                .unwrap_or(IrType::Unknown),
-                        ),
-                    ),
+                    GenericBaseKind::Collection(CollectionTypeId::List) => {
+                        let mut args = lowered_params.into_iter();
+                        IrType::List(Box::new(args.next().unwrap_or(IrType::Unknown)))
+                    }
+                    GenericBaseKind::Collection(CollectionTypeId::Dict) => {
+                        let mut args = lowered_params.into_iter();
+                        let key = args.next().unwrap_or(IrType::Unknown);
+                        let value = args.next().unwrap_or(IrType::Unknown);
+                        IrType::Dict(Box::new(key), Box::new(value))
+                    }
+                    GenericBaseKind::Collection(CollectionTypeId::Set) => {
+                        let mut args = lowered_params.into_iter();
+                        IrType::Set(Box::new(args.next().unwrap_or(IrType::Unknown)))
+                    }
+                    GenericBaseKind::Collection(CollectionTypeId::Option) => {
+                        let mut args = lowered_params.into_iter();
+                        IrType::Option(Box::new(args.next().unwrap_or(IrType::Unknown)))
+                    }
+                    GenericBaseKind::Collection(CollectionTypeId::Result) => {
+                        let mut args = lowered_params.into_iter();
+                        let ok = args.next().unwrap_or(IrType::Unknown);
+                        let err = args.next().unwrap_or(IrType::Unknown);
+                        IrType::Result(Box::new(ok), Box::new(err))
+                    }
                     GenericBaseKind::Collection(CollectionTypeId::Tuple) => IrType::Tuple(lowered_params),
                     GenericBaseKind::Collection(
                         CollectionTypeId::FrozenList | CollectionTypeId::FrozenSet | CollectionTypeId::FrozenDict,
@@ -315,9 +295,7 @@ impl AstLowering {
                         };
                         IrType::NamedGeneric(collections::as_str(id).to_string(), lowered_params)
                     }
-                    GenericBaseKind::Other => {
-                        IrType::NamedGeneric(base.clone(), params.iter().map(|p| self.lower_type(&p.node)).collect())
-                    }
+                    GenericBaseKind::Other => IrType::NamedGeneric(base.clone(), lowered_params),
                 }
             }
             ast::Type::Function(params, ret) => IrType::Function {
